@@ -504,7 +504,7 @@ def run_sinusoid(case):
 def gen_karplus(run):
   for delay in ("2", "3", "7/2", "9/4", "5"):
     for tau in (1.0, 10.0, 2e4, float("inf")):
-      for memk in ("list", "callable"):
+      for memk in ("list", "callable", "short1", "short-half", "stream", "stream-short1", "tuple-short2", "long", "none"):
         yield (delay, tau, memk)
 
 
@@ -523,8 +523,15 @@ def run_karplus(case):
   def memf(size):
     calls.append(size)
     return list(mem)
+  # a memory shorter than the comb's order stands for its OLDEST samples (the filter pads it with the zero
+  # value at its left: a one-sample "pluck" comes out first); a longer one is cut to the order
+  given = {"short1": mem[:1], "stream-short1": mem[:1], "short-half": mem[:max(1, order // 2)],
+           "tuple-short2": mem[:2], "none": [], "long": mem + [Q(5), Q(-7)]}.get(memk, mem)
+  arg = {"callable": memf, "stream": Stream(list(given)), "stream-short1": Stream(list(given)),
+         "tuple-short2": tuple(given), "none": None}.get(memk, list(given))
+  mem = ([Q(0)] * (order - len(given)) + list(given))[:order]
   try:
-    got = karplus_strong(freq, tau, memory=(list(mem) if memk == "list" else memf)).take(14)
+    got = karplus_strong(freq, tau, memory=arg).take(14)
   except Exception as exc:
     return bad("karplus:exception:" + type(exc).__name__, "karplus_strong raised", None, str(exc)[:200])
   # linearised comb: y[n] = alpha*((1-theta) y[n-D] + theta y[n-D-1]); input is all zeros
